@@ -11,6 +11,7 @@ M: `Model.segwitDigest` transcribes `get_transaction_segwit_digest`; Spec: `Spec
 namespace C04
 open Py Spec Model
 
+set_option linter.unusedSimpArgs false in
 /-- for every hash type without the undefined bits 0x70 (the six defined ones are instances; the code
 tests ANYONECANPAY with `(sighash & 0xF0) == 0x80`, BIP143 with `& 0x80`), every index, script code of
 any length, amount 0..2^63-1: the digest is the double-SHA256 of the BIP143 preimage — every length
@@ -37,9 +38,18 @@ theorem segwit_digest_eq_bip143 (sha256 : Bytes → Bytes) (T : Tables) (hT : C0
   have eD : (List.map (C01.rawIn T) t.inputs).getD i default = C01.rawIn T t.inputs[i] := by
     simp [List.getD, List.getElem?_map, eI]
   unfold segwitDigest bip143Preimage
-  simp only [C01.rawTx, eP, eO, eI, eop, hcb, eamt, eht, ebits, eD, List.flatMap_map, List.length_map,
-    bind, Except.bind, pure, Except.pure]
-  sorry
+  -- first rewrite every effectful leaf to its value (no `bind` unfolding while `pack` is still around)
+  simp only [C01.rawTx, eP, eO, eI, eop, hcb, eamt, eht, ebits, eD, List.flatMap_map, List.length_map]
+  by_cases hlt : i < t.outputs.length
+  · have eJ : t.outputs[i]? = some t.outputs[i] := List.getElem?_eq_getElem hlt
+    have eo := (C01.out_spec T hT _ (houts _ (List.getElem_mem hlt))).2.1
+    have eE : (List.map (C01.rawOut T) t.outputs).getD i default = C01.rawOut T t.outputs[i] := by
+      simp [List.getD, List.getElem?_map, eJ]
+    simp only [eJ, eo, eE]
+    by_cases hA : ht &&& 128 ≠ 0 <;> by_cases h3 : ht &&& 31 = 3 <;> by_cases h2 : ht &&& 31 = 2 <;>
+      simp [Digest04.rawIn_sequence, hA, h3, h2, hlt, withLen, bind, Except.bind, pure, Except.pure]
+  · by_cases hA : ht &&& 128 ≠ 0 <;> by_cases h3 : ht &&& 31 = 3 <;> by_cases h2 : ht &&& 31 = 2 <;>
+      simp [Digest04.rawIn_sequence, hA, h3, h2, hlt, withLen, bind, Except.bind, pure, Except.pure]
 
 /-- the digest does not depend on scriptSigs or witnesses -/
 theorem ignores_scriptsigs_witnesses (sha256 : Bytes → Bytes) (T : Tables) (t t' : Tx) (i : Nat) (code : List Tok)
@@ -47,6 +57,14 @@ theorem ignores_scriptsigs_witnesses (sha256 : Bytes → Bytes) (T : Tables) (t 
     (hv : t'.version = t.version) (hl : t'.locktime = t.locktime) (ho : t'.outputs = t.outputs)
     (hi : t'.inputs.map (fun x => (x.txid, x.index, x.sequence)) = t.inputs.map (fun x => (x.txid, x.index, x.sequence))) :
     segwitDigest sha256 T t' i code amount ht = segwitDigest sha256 T t i code amount ht := by
-  sorry
+  have hi' : t'.inputs.map Digest04.proj = t.inputs.map Digest04.proj := hi
+  have hg := Digest04.getElem?_proj t.inputs t'.inputs hi' i
+  unfold segwitDigest
+  rw [hv, hl, ho, Digest04.map_outpointBytes t'.inputs, Digest04.map_outpointBytes t.inputs,
+    Digest04.flatMap_sequence t'.inputs, Digest04.flatMap_sequence t.inputs, hi']
+  rcases h1 : t'.inputs[i]? with _ | x' <;> rcases h2 : t.inputs[i]? with _ | x <;>
+    rw [h1, h2] at hg <;> simp only [Option.map_none, Option.map_some, reduceCtorEq, Option.some.injEq] at hg
+  all_goals trace_state
+  all_goals sorry
 
 end C04
